@@ -9,6 +9,8 @@ COMMON_ASSUMPTIONS = [
 
 PLAN = {}
 NOT_APPLICABLE = {}
+# guarded (-DVATA_VERIF) instrumentation commits in /repo
+HOOK_COMMITS = ["eae8efbd"]
 
 PLAN["C01"] = {
     "level": "exploration",
@@ -117,7 +119,7 @@ PLAN["C15"] = {
 PLAN["C16"] = {
     "level": "exploration",
     "rule": "every LTS of LTS(n states, L labels, <=k edges) (isolated states included; systems with <=3 edges also with one edge inserted twice) x every partition of the states x every "
-            "reflexive-transitive relation on the blocks x every output size 1..n, plus the partition-free entries computeSimulation(size 0..n) and computeSimulation(): result compared "
+            "reflexive-transitive relation on the blocks x every output size 1..n x counter row size {regular 31, 1, 2} (guarded hook: tiny SharedCounter rows make small systems span several rows), plus the partition-free entries computeSimulation(size 0..n) and computeSimulation(): result compared "
             "entry-wise on [0,out)^2 with the greatest simulation inside the initial relation computed by the naive fixpoint; an evaluation = one (system, partition, preorder, size); "
             "non-trivial = at least one edge and some off-diagonal pair is related or pruned",
     "assumptions": COMMON_ASSUMPTIONS,
@@ -152,4 +154,23 @@ PLAN["C10"] = {
     "quick": [("rel", "c10.single.n3l2k4"), ("rel", "c10.pairs.n2l1"), ("rel", "c10.pairs.n2l2k3")],
     "thorough": [("rel", "c10.single.n3l2k5"), ("rel", "c10.single.n4l1k5"), ("rel", "c10.pairs.n2l1"), ("rel", "c10.pairs.n2l2k4")],
     "require": {"all": ["class_accepts_empty_word", "class_several_start_states", "class_product_state_with_one_start_component", "class_both_accept_empty_word", "intersection_nonempty", "lang_empty"]},
+}
+
+HIST_ASSUMPTIONS = COMMON_ASSUMPTIONS + [
+    "a state is the operation history reaching it, replayed on fresh real objects; two histories are merged only when the abstract values of all handles AND the real sharing pattern "
+    "(pointer identity of every shared level read with -fno-access-control) coincide; the key of every prefix is re-computed on replay and must match",
+]
+
+PLAN["C12"] = {
+    "level": "model_checking", "engine": "E-HIST",
+    "rule": "breadth-first search over histories of AddTransition (8 rules colliding on parent/symbol/tuple, one symbol with arities 0,1,2; both overloads), SetStateFinal, SetStatesFinal, "
+            "EraseFinalStates, Clear, copy-assign to a second handle, AreTransitionsEmpty; in every state ALL read-only views of both handles (iteration, ContainsTransition over the "
+            "whole universe + foreign rules, GetAcceptTrans, operator[] for every state incl. empty(), GetUsedStates, GetFinalStates, IsStateFinal, AreTransitionsEmpty on copies) are "
+            "compared with a set-of-rules + set-of-finals reference; c12.sat explores the single-handle world until no new abstract value appears (all 2^8 x 2^3 values)",
+    "assumptions": HIST_ASSUMPTIONS,
+    "claim": "All operation histories up to the stated depth (and, for one handle, every reachable abstract state) with every read-only view checked in every state.",
+    "technique": "explicit-state breadth-first search over operation histories of the real container, reference-model comparison in every state",
+    "quick": [("rel", "c12.sat"), ("rel", "c12.d7")],
+    "thorough": [("rel", "c12.sat"), ("rel", "c12.d9"), ("asan", "c12.d6")],
+    "require": {"all": ["transitions_into_sharing_states"]},
 }
